@@ -63,6 +63,10 @@ package momentum
 //@ ensures[C03] consumed(highs) == len(highs) && consumed(lows) == len(lows) && consumed(closings) == len(closings) && closed(result0) && closed(result1)
 //@ ensures[C04] forall kk :: 0 <= kk && kk < len(result0) ==> hor(result0, kk) <= max(hor(highs, kk + (s.IdlePeriod())), max(hor(lows, kk + (s.IdlePeriod())), hor(closings, kk + (s.IdlePeriod()))))
 //@ ensures[C04] forall kk :: 0 <= kk && kk < len(result1) ==> hor(result1, kk) <= max(hor(highs, kk + (s.IdlePeriod())), max(hor(lows, kk + (s.IdlePeriod())), hor(closings, kk + (s.IdlePeriod()))))
+//@ guarantees[C01] "k-formula" forall j :: 0 <= j && j < len(kSplice[0]) ==> kSplice[0][j] == (closings[j + s.Min.Period - 1] - wminS(lows, j, j + s.Min.Period)) / (wmaxS(highs, j, j + s.Min.Period) - wminS(lows, j, j + s.Min.Period)) * 100
+//@ guarantees[C01] "k-aligned" forall k :: 0 <= k && k < len(result0) ==> result0[k] == kSplice[0][k + s.Sma.Period - 1]
+//@ guarantees[C01] "d-formula" forall k :: 0 <= k && k < len(result1) ==> result1[k] == (psum(kSplice[0], k + s.Sma.Period) - psum(kSplice[0], k)) / s.Sma.Period
+//@ guarantees[C15] "k-range" forall j :: 0 <= j && j < len(kSplice[0]) && lows[j + s.Min.Period - 1] <= closings[j + s.Min.Period - 1] && closings[j + s.Min.Period - 1] <= highs[j + s.Min.Period - 1] && wminS(lows, j, j + s.Min.Period) < wmaxS(highs, j, j + s.Min.Period) ==> 0 <= kSplice[0][j] && kSplice[0][j] <= 100
 
 //@ func StochasticRsi.Compute
 //@ requires s.Rsi.Rma.Period >= 1 && s.Min.Period >= 1 && s.Max.Period == s.Min.Period && consumed(closings) == 0
@@ -75,3 +79,5 @@ package momentum
 //@ ensures[C02] len(result) == max(0, len(highs) - (w.IdlePeriod()))
 //@ ensures[C03] consumed(highs) == len(highs) && consumed(lows) == len(lows) && consumed(closings) == len(closings) && closed(result)
 //@ ensures[C04] forall kk :: 0 <= kk && kk < len(result) ==> hor(result, kk) <= max(hor(highs, kk + (w.IdlePeriod())), max(hor(lows, kk + (w.IdlePeriod())), hor(closings, kk + (w.IdlePeriod()))))
+//@ ensures[C01] "formula" forall k :: 0 <= k && k < len(result) ==> result[k] == (wmaxS(highs, k, k + w.Max.Period) - closings[k + w.Max.Period - 1]) / (wmaxS(highs, k, k + w.Max.Period) - wminS(lows, k, k + w.Max.Period)) * (0 - 100)
+//@ ensures[C15] "range" forall k :: 0 <= k && k < len(result) && lows[k + w.Max.Period - 1] <= closings[k + w.Max.Period - 1] && closings[k + w.Max.Period - 1] <= highs[k + w.Max.Period - 1] && wminS(lows, k, k + w.Max.Period) < wmaxS(highs, k, k + w.Max.Period) ==> 0 - 100 <= result[k] && result[k] <= 0
